@@ -332,8 +332,12 @@ class ReuseDep5(GlobalLicensing):
                     spdx_expressions=set(
                         map(_LICENSING.parse, [result.license.synopsis])
                     ),
+                    # A folded field starts with an empty line. That is no
+                    # copyright notice.
                     copyright_lines=set(
-                        map(str.strip, result.copyright.splitlines())
+                        filter(
+                            None, map(str.strip, result.copyright.splitlines())
+                        )
                     ),
                     path=path,
                     source_type=SourceType.DEP5,
